@@ -31,3 +31,10 @@ reg('C05', 'runtime monitoring: metamorphic law monitor over identity sets retur
     'are evaluated on the results the real API returns for random selector triples from the whole grammar, on seven '
     'document kinds and five namespace maps. No reference is involved, so every pseudo-class is in scope.',
     'Trusted: only set arithmetic on returned node identities; U taken from select("*") / select("*|*").')
+reg('C06', 'runtime monitoring: exception-type sanitizer at the compile() boundary under coverage-guided mutational fuzzing',
+    'Every compile() call of a coverage-guided (sys.monitoring line novelty + exception-site novelty) mutational '
+    'fuzzer is wrapped by an exception sanitizer that accepts only the documented outcomes; ~5*10^5 patterns per '
+    'quick run plus random custom maps and namespace maps; violations are shrunk by span deletion keeping the same '
+    'exception type and site.',
+    'Trusted: the list of documented outcomes in ASSUMPTIONS (RecursionError only at nesting >= 40, nesting = '
+    'parentheses + combinator chain/3); CPU-budget exhaustion is handed to C07, not judged.')
